@@ -329,6 +329,27 @@ else:
         settle()
 
 
+def feed_burst(proto, chunks):
+    """several reads delivered back-to-back, without an event-loop turn in between (asyncio: data_received xN, then settle)"""
+    if NAME == "tx":
+        for ch in chunks:
+            e = feed(proto, ch)
+            if e is not None:
+                return e
+        return None
+    try:
+        for ch in chunks:
+            proto.data_received(ch)
+        settle()
+    except Exception as e:  # noqa
+        return e
+    if LOOP.exceptions:
+        ctx = LOOP.exceptions.pop(0)
+        LOOP.exceptions.clear()
+        return ctx.get("exception") or RuntimeError(str(ctx.get("message")))
+    return None
+
+
 def pump(max_steps=10000):
     """run zero-ish delay calls (the 10 microsecond send-queue pump) until none is due within 1 ms"""
     n = 0
